@@ -4,7 +4,10 @@ seeded/RESULTS.json and in the seed's meta.json.  Sequential on purpose: /repo i
 import json, os, re, subprocess, sys, time
 
 VERIF = os.path.dirname(os.path.dirname(os.path.abspath(__file__)))
-EXTRA = {"C11-3": ["C15"], "C12-1": ["C11"], "C15-2": ["C11"], "C10-2": ["C15"], "C18-3": ["C15"], "C15-3": ["C18"]}
+EXTRA = {"C11-3": ["C15"], "C12-1": ["C11"], "C15-2": ["C11"], "C10-2": ["C15"], "C18-3": ["C15"], "C15-3": ["C18"],
+         "C01-4": ["C02", "C05"], "C02-5": ["C01", "C03"], "C02-6": ["C10"], "C05-6": ["C03"], "C07-4": ["C03"], "C07-5": ["C03"],
+         "C12-4": ["C04"], "C12-5": ["C03"], "C12-6": ["C11"], "C13-4": ["C09"], "C20-4": ["C09"]}
+ONLY_EXTRA = bool(os.environ.get("ONLY_EXTRA"))
 names = sys.argv[1:] or sorted(os.listdir(os.path.join(VERIF, "seeded")))
 res_path = os.path.join(VERIF, "seeded", "RESULTS.json")
 results = json.load(open(res_path)) if os.path.exists(res_path) else {}
@@ -17,9 +20,9 @@ for name in names:
     if subprocess.run(["git", "-C", "/repo", "apply", os.path.join(d, "patch.diff")]).returncode != 0:
         results[name] = {"error": "patch does not apply"}
         continue
-    out = {}
     try:
-        for check in [pid] + EXTRA.get(name, []):
+        out = dict(results.get(name, {})) if ONLY_EXTRA and isinstance(results.get(name), dict) else {}
+        for check in ([] if ONLY_EXTRA else [pid]) + EXTRA.get(name, []):
             t0 = time.time()
             p = subprocess.run(["./check.sh", check, "quick"], cwd=VERIF, capture_output=True, text=True, timeout=3000)
             v = [l for l in p.stdout.splitlines() if l.startswith("VIOLATION")]
